@@ -363,6 +363,58 @@ class Interp:
             self.depth -= 1
 
 
+class _Obj:
+    """instance stand-in for ObjInterp: the attributes live in `attrs`"""
+    def __init__(self, cname):
+        self.cname, self.attrs = cname, {}
+
+
+class ObjInterp(Interp):
+    """Interp + instances of classes of the same module: `self.x = v`, `self.x`, `self.method(...)` (used to EXECUTE KeyDerivator)"""
+
+    def method(self, cname, name, seen=()):
+        c = self.env.classes.get(cname)
+        if c is None or cname in seen:
+            return None
+        for n in c.node.body:
+            if isinstance(n, ast.FunctionDef) and n.name == name:
+                return n
+        for b in c.node.bases:
+            if isinstance(b, ast.Name):
+                m = self.method(b.id, name, seen + (cname,))
+                if m is not None:
+                    return m
+        return None
+
+    def new(self, cname, *args, **kw):
+        o = _Obj(cname)
+        init = self.method(cname, "__init__")
+        if init is None:
+            raise Untr(f"{cname}.__init__ not found")
+        self.run(init, [o] + list(args), kw)
+        return o
+
+    def ev(self, e, loc):
+        if isinstance(e, ast.Attribute) and isinstance(e.value, ast.Name) and isinstance(loc.get(e.value.id), _Obj):
+            o = loc[e.value.id]
+            if e.attr in o.attrs:
+                return o.attrs[e.attr]
+            m = self.method(o.cname, e.attr)
+            if m is not None:
+                return ("partial", m, [o], {})
+            r = self.class_const(o.cname, e.attr)
+            if r is not None:
+                return self.const_value(*r)
+            raise Untr("attribute " + ast.unparse(e))
+        return super().ev(e, loc)
+
+    def assign(self, target, value, loc):
+        if isinstance(target, ast.Attribute) and isinstance(target.value, ast.Name) and isinstance(loc.get(target.value.id), _Obj):
+            loc[target.value.id].attrs[target.attr] = value
+        else:
+            super().assign(target, value, loc)
+
+
 def outcome(fn):
     """('ok', value) | ('E', class name) of a thunk run under the interpreter"""
     try:
@@ -969,6 +1021,83 @@ def gen_Sb31Consts():
             note(f"_derive_key({k})", exc)
     L.append(f"def kdfIterationsFor : List (Nat × List Nat) := [{', '.join(f'({k}, [{', '.join(map(str, s))}])' for k, s in its)}]"
              "  -- key length -> iterations whose CMACs are concatenated (by execution of _derive_key)")
+    # ---- KeyDerivator call sites: WHICH arguments reach the derivation data (and which key is CMACed) when the KDK is derived in
+    # `KeyDerivator.__init__` and when a block key is derived in `get_block_key` -- by EXECUTION of the class with marker arguments and a
+    # recording CMAC stub, for every accepted access-rights value x key length; each CMACed message is decoded against the derivation data
+    # of all candidate (constant, rights, mode, key length, iteration) tuples.  A slot is emitted as the PARAMETER it follows over all runs,
+    # as a literal when it is the same value in all runs, else as a sentinel.
+    TS, BN, PCK, KDK = 0x0102030405060708, 0x1112131415, b"\xa1PCK", b"\xa2KDK"
+    rec = []
+
+    def cmac_rec(key=None, data=None):
+        rec.append((bytes(key), bytes(data)))
+        return b"\x00" * 16
+
+    itK = ObjInterp(fun, {"KeyDerivationMode": _Modes(), "cmac": cmac_rec})
+    it_of = dict(its)
+
+    def decode(calls, r, k):
+        """-> (key name, constant name, rights, mode, key length) common to the CMAC calls of one derivation; iterations as generated"""
+        out, seq = set(), []
+        for key, data in calls:
+            hits = [(cn, rr, m, kk, i) for cn, cv in (("timestamp", TS), ("block_number", BN)) for rr in rights for m in sorted(kdm_set)
+                    for kk in klens for i in range(0, 9)
+                    if kdf_data(derivation_constant=cv, kdk_access_rights=rr, mode=m, key_length=kk, iteration=i) == ("ok", data)]
+            if len(hits) != 1:
+                raise Untr(f"CMACed message matches {len(hits)} derivation inputs")
+            kn = "pck" if key == PCK else "kdk" if key == KDK else None
+            if kn is None:
+                raise Untr("CMAC key is neither the PCK nor the KDK")
+            out.add((kn,) + hits[0][:4])
+            seq.append(hits[0][4])
+        if len(out) != 1:
+            raise Untr("the CMAC calls of one derivation differ in more than the iteration")
+        res = out.pop()
+        if seq != it_of.get(res[4]):
+            raise Untr(f"iterations {seq} differ from those of _derive_key for key length {res[4]}")
+        return res
+
+    def slot(vals, inputs, pname):
+        """vals[j] observed when the parameter `pname` was inputs[j]"""
+        if vals and all(v == i for v, i in zip(vals, inputs)):
+            return pname
+        if vals and len(set(vals)) == 1 and isinstance(vals[0], int):
+            return str(vals[0])
+        return str(BAD)
+
+    sites = {"kdkCall": None, "blkCall": None}
+    try:
+        if kf is None or not rights or not klens:
+            raise Untr("derivation data not executable")
+        runs = {"kdkCall": [], "blkCall": []}
+        for r in rights:
+            for k in klens:
+                del rec[:]
+                o = itK.new("KeyDerivator", pck=PCK, timestamp=TS, key_length=k, kdk_access_rights=r)
+                runs["kdkCall"].append((r, k, decode(list(rec), r, k)))
+                o.attrs["kdk"] = KDK
+                del rec[:]
+                gb = itK.method("KeyDerivator", "get_block_key")
+                if gb is None:
+                    raise Untr("KeyDerivator.get_block_key not found")
+                itK.run(gb, [o, BN])
+                runs["blkCall"].append((r, k, decode(list(rec), r, k)))
+        for nm, rs in runs.items():
+            keys, consts = {x[2][0] for x in rs}, {x[2][1] for x in rs}
+            if len(keys) != 1 or len(consts) != 1:
+                raise Untr(f"{nm}: key / derivation constant vary with rights or key length")
+            sites[nm] = (keys.pop(), consts.pop(), slot([x[2][2] for x in rs], [x[0] for x in rs], "kdk_access_rights"),
+                         slot([x[2][3] for x in rs], [None] * len(rs), "mode"), slot([x[2][4] for x in rs], [x[1] for x in rs], "key_length"))
+    except (Untr, PyRaise, NotConst) as exc:
+        note("KeyDerivator call sites", exc)
+    for nm, (kp, cp, doc) in {"kdkCall": ("pck", "timestamp", "KeyDerivator.__init__ (the KDK)"),
+                               "blkCall": ("kdk", "block_number", "KeyDerivator.get_block_key")}.items():
+        st = sites[nm]
+        ok = st is not None and st[0] == kp and st[1] == cp
+        body = f"({st[0]}, {st[1]}, {st[2]}, {st[3]}, {st[4]})" if ok else f"([], {BAD}, {BAD}, {BAD}, {BAD})"
+        meta[nm] = "executed" if ok else "sentinel"
+        L.append(f"/-- (CMAC key, derivation constant, access rights, mode, key length) that reach `_get_key_derivation_data` from {doc}: by execution -/")
+        L.append(f"def {nm} ({kp} : Bytes) ({cp} key_length kdk_access_rights : Nat) : Bytes × Nat × Nat × Nat × Nat := {body}")
     L += ["", "end SpsdkVerif.Generated.Sb31Consts"]
     emit("Sb31Consts", "\n".join(L) + "\n", meta)
 
